@@ -17,6 +17,7 @@ import SccacheModel.Driver.Tc
 import SccacheModel.Driver.EntryRead
 import SccacheModel.Driver.Atomic
 import SccacheModel.Driver.Tokens
+import SccacheModel.Driver.Config
 
 /-- `modeld <model>`: line-protocol driver, one sub-command per executable model (DESIGN.md C.1) -/
 def main (args : List String) : IO UInt32 := do
@@ -40,4 +41,5 @@ def main (args : List String) : IO UInt32 := do
   | ["entryread"] => DrvEntryRead.main *> pure 0
   | ["atomic"] => DrvAtomic.main *> pure 0
   | ["tokens"] => DrvTokens.main *> pure 0
+  | ["config"] => DrvConfig.main *> pure 0
   | _ => do IO.eprintln "usage: modeld <model>"; pure 2
